@@ -2,6 +2,7 @@ import CV.Proofs.CoreValue
 import CV.Proofs.InvValue
 import CV.Proofs.InvValueErr
 import CV.Proofs.InvValueLoop
+import CV.Proofs.InvTasksThm
 /-
 C04 - value layer.  `Val.set` is the function the machine calls for every non-None handler
 result (`setValue` in CV.Model.Core.Machine); these theorems say that whatever sequence of
@@ -295,5 +296,148 @@ theorem all_handlers_visited (r e : Nat) (k : List Frame) (hs : List Nat) (c : C
 /-- non-vacuity: the dispatcher enters the loop -/
 example : InLoop 0 0 [] [1, 2] { st := {}, stack := [.hLoop 0 0 [1, 2] false .none] } :=
   ⟨[], _, rfl, rfl, rfl, rfl⟩
+
+
+/-! ## waitingHandlers accounting (CV/Proofs/InvTasks*.lean)
+
+`event.waitingHandlers` (model: `Ev.waiting`) is the counter that decides whether `_eventDone` goes through.  The
+OBLIGATIONS of an event `e` are
+  * every task-set entry `(e, g, parent)` of any component: weight 1, plus 1 when it has a parent (the resumption task of a
+    `waitEvent` generator, the `TimeoutError` carrier, the one-shot value generator: it stands for itself and for the
+    suspended caller)                                                                    - `St.t46_WT s e`;
+  * every wait state that is started, has not seen `_on_done` and has not timed out, with `task_event = e`: weight 2 (the
+    `call`/`wait` and the suspended caller)                                             - `St.t46_WW s e`;
+  * every `.ptParent r t p v` frame with `t.e = e` on the stack: weight 2 (the resumption task is unregistered, the caller
+    is running)                                                                          - `t46_WF e stack`.
+INVARIANT `T46Inv` (over guarded sessions):  obligations(e) ≤ waiting(e)  for every event, task sets are duplicate-free,
+at most one task is in flight and it sits directly on the task loop of its (root) component, nothing but driver-level
+frames is below a task loop.  It is preserved by EVERY arm of `step` (`t46_step_inv`, all 38 frames, unwinding included).
+
+EQUALITY IS FALSE (model and code): the counter leaks upwards - `SystemExit`/`KeyboardInterrupt` out of a caller resumed after
+`call`/`wait` leaves `waitingHandlers` at 2 for ever; the stale `value` re-applied by `_dispatcher` after a handler raised
+`SystemExit` counts a generator twice; a `waitEvent` generator whose `_done` handler is gone drops its caller without
+decrementing.  Such an event never fires `_success`/`_complete`.  Only `≥` is an invariant.
+
+RUN HYPOTHESIS `T46Guard` (the theorems below are `_partial` because of it; `T46Reach` = `Reach` restricted to runs on which it
+holds at every step taken, like `ReachG` of C05).  Clauses that are REAL restrictions:
+  (tick) `tick()` with pending tasks is entered only while no task is being processed and no handler is in progress, and on
+         a root component - i.e. no handler / generator re-enters the task loop (in the model: `stop()` called from a handler
+         while `running ∧ ¬executing`, which runs three inline ticks; a handler calling `self.tick()` in the code).  Without
+         it a task in flight is processed a second time by the inner loop and `_eventDone(e)` goes through twice
+         (`eventDone_once_witness`, the run of C05's `guard_witness`);
+  (root) no step changes the root of a component whose task loop is active (the code does not migrate `_tasks` when a root
+         component is registered under another one: its tasks are orphaned and re-processed by `tick()` of the old root).
+Clauses believed to be invariants of the model, not proved here (they need "event ids are in range" and facts of the wait
+protocol of C06): (gen) the event whose handler returned a generator exists; (own) a task whose user generator yields a
+`call`/`wait` is an ordinary task `(e, g, None)` of an existing event; (done) `_on_done` of a wait state runs on a started
+wait state whose flag is not yet set; (tickh) `_on_tick` runs on a started wait state.
+
+OPEN: the run-level statement `eventDone_once` ("between two passes of `_eventDone(e)` the event is dispatched again"), the
+ownership invariant for user generators and the upgrade of C06 `caller_completes_partial`: see the report. -/
+
+/-- non-vacuity of the hypotheses -/
+example : T46Init {} := ⟨fun x => by cases x <;> rfl, rfl, fun e => by
+  have : ({} : St).ev e = dfltEv := by cases e <;> rfl
+  rw [this]; decide⟩
+example : T46Init C05.s0w := t46_s0w_init
+example (s0 : St) : T46Reach s0 (startOf (envChange s0 0 []) (.tick 0)) := T46Reach.init 0 [] (.tick 0)
+example : T46Guard { st := {} } :=
+  ⟨fun _ _ h => (by cases h), fun _ _ h => (by cases h), fun _ _ _ _ _ _ h => (by cases h),
+   fun _ _ _ _ h => (by cases h), fun _ _ _ _ _ h => (by cases h), fun _ _ _ _ _ h => (by cases h)⟩
+
+/-- guarded sessions are sessions; if the guard holds in every reachable configuration, every session is guarded -/
+theorem guarded_sessions_are_sessions (s0 : St) (c : Cfg) (h : T46Reach s0 c) : Reach s0 c := h.reach
+
+/-- **waiting_accounting** (PARTIAL: guarded sessions).  In every configuration, for every event:
+    task weights + pending-wait weights + frame weights ≤ `waitingHandlers`; in particular the counter is never negative. -/
+theorem waiting_accounting_partial (s0 : St) (h0 : T46Init s0) (c : Cfg) (hr : T46Reach s0 c) (e : Nat) :
+    c.st.t46_WT e + c.st.t46_WW e + t46_WF e c.stack ≤ (c.st.ev e).waiting ∧
+    0 ≤ c.st.t46_WT e ∧ 0 ≤ c.st.t46_WW e ∧ 0 ≤ t46_WF e c.stack ∧ 0 ≤ (c.st.ev e).waiting :=
+  ⟨(t46_reach_inv h0 c hr).bound e, St.t46_WT_nonneg _ _, St.t46_WW_nonneg _ _, t46_WF_nonneg _ _,
+   (t46_reach_inv h0 c hr).waiting_nonneg e⟩
+
+/-- … the same when the guard is known to hold on all of `Reach` -/
+theorem waiting_accounting_of_guard (s0 : St) (h0 : T46Init s0) (hG : ∀ c, Reach s0 c → T46Guard c) (c : Cfg)
+    (hr : Reach s0 c) (e : Nat) : c.st.t46_WT e + c.st.t46_WW e + t46_WF e c.stack ≤ (c.st.ev e).waiting :=
+  (t46_reach_inv h0 c (T46Reach.of_reach hG hr)).bound e
+
+/-- every registered task of `e` is paid for: `waitingHandlers(e) ≥ 1`, `≥ 2` when the task carries a suspended caller
+    (PARTIAL: guarded sessions) -/
+theorem registered_task_counts_partial (s0 : St) (h0 : T46Init s0) (c : Cfg) (hr : T46Reach s0 c) (x : Nat) (t : Task)
+    (ht : t ∈ (c.st.comp x).tasks) : (if t.parent.isSome then 2 else 1) ≤ (c.st.ev t.e).waiting :=
+  (t46_reach_inv h0 c hr).task_bound x t ht
+
+/-- **one task in flight** (the ownership part that is proved; PARTIAL: guarded sessions).  Task sets are duplicate-free; below
+    every `.taskLoop x ts` frame there is no task frame, no other task loop and no handler in progress; `x` is its own root
+    and the tasks still to be processed are registered; the task frame on top of the stack belongs to a task that is still
+    registered (`.ptBody`/`.ptOwn`) and whose event therefore has `waitingHandlers ≥ 1` - also after the unregistration
+    (`.ptParent`, which weighs 2 itself). -/
+theorem one_task_in_flight_partial (s0 : St) (h0 : T46Init s0) (c : Cfg) (hr : T46Reach s0 c) :
+    (∀ x, (c.st.comp x).tasks.Nodup) ∧
+    (∀ a x ts b, c.stack = a ++ Frame.taskLoop x ts :: b →
+      (∀ f ∈ b, f.t46_noisy = false) ∧ c.st.rootOf x = x ∧ ∀ t ∈ ts, t ∈ (c.st.comp x).tasks) ∧
+    (∀ r t k, (c.stack = .ptBody r t :: k ∨ c.stack = .ptOwn r t :: k ∨ ∃ p v, c.stack = .ptParent r t p v :: k) →
+      1 ≤ (c.st.ev t.e).waiting) := by
+  have hi := t46_reach_inv h0 c hr
+  refine ⟨hi.nd, fun a x ts b hs => ?_, fun r t k hs => hi.inflight_bound r t k hs⟩
+  have hsh := hi.shape
+  rw [hs] at hsh
+  obtain ⟨h1, h2, h3⟩ := T46Shape.loop_quiet hsh
+  refine ⟨fun f hf => ?_, h2, h3⟩
+  simp only [t46_quiet, List.all_eq_true, Bool.not_eq_true'] at h1
+  exact h1 f hf
+
+/-- **success_after_last_step** (PARTIAL: guarded sessions).  When the end-of-event step of `e` goes through - `_eventDone(e)`
+    entered with `waitingHandlers = 0`: the step that fires `<name>_done`, `<name>_success` and calls `_effectDone`
+    (`success_rule`) - no obligation of `e` is left: no task of `e` is registered in any component, no `call`/`wait` made by
+    a handler of `e` is pending, no caller of `e` is being resumed.  Every generator handler of the event has made its last
+    step.  (The converse is not an invariant: see EQUALITY IS FALSE above.) -/
+theorem success_after_last_step_partial (s0 : St) (h0 : T46Init s0) (c : Cfg) (hr : T46Reach s0 c) (e : Nat)
+    (hp : T46Pass c e) :
+    (∀ x t, t ∈ (c.st.comp x).tasks → t.e ≠ e) ∧
+    (∀ w, w < c.st.waits.length → (c.st.wait w).t46_pending = true → (c.st.wait w).taskEvent ≠ e) ∧
+    (∀ r t p v, Frame.ptParent r t p v ∈ c.stack → t.e ≠ e) := by
+  obtain ⟨_, _, _, _, _, hw⟩ := hp
+  exact (t46_reach_inv h0 c hr).no_obligations e hw
+
+/-- **eventDone_once**, PARTIAL.  FULL STATEMENT: along any run, between two configurations in which the end-of-event step of
+    `e` goes through (`T46Pass`), a `.disp e` entry is logged (the event is dispatched again).  It is FALSE over `Reach`
+    (`eventDone_once_witness`).  PROVED here for guarded sessions: the two facts that exclude the two mechanisms of a second
+    pass - (1) after a pass no obligation of `e` exists, and a task frame of `e` in flight forces `waitingHandlers(e) ≥ 1`, so
+    no task step can reach `_eventDone(e)` with 0 unless a handler of `e` first registers a new generator (`hApply` in a
+    dispatch of `e`); (2) when the pass happens inside the task loop, no handler loop is suspended below the loop, so no
+    `_dispatcher(e)` will run its own `_eventDone(e)` afterwards.  MISSING for the full statement: the run-level induction
+    ("closed until dispatched again") over all arms, which needs per-arm lemmas "`waiting e` is untouched" and "no frame of
+    `e` is pushed"; the invariant `T46Inv` it would use is complete. -/
+theorem eventDone_once_partial (s0 : St) (h0 : T46Init s0) (c : Cfg) (hr : T46Reach s0 c) (e : Nat) (hp : T46Pass c e) :
+    ((∀ x t, t ∈ (c.st.comp x).tasks → t.e ≠ e) ∧
+     (∀ w, w < c.st.waits.length → (c.st.wait w).t46_pending = true → (c.st.wait w).taskEvent ≠ e)) ∧
+    (∀ a x ts b, c.stack = a ++ Frame.taskLoop x ts :: b → ∀ f ∈ b, f.t46_noisy = false) ∧
+    (∀ c', T46Reach s0 c' → ∀ r t k,
+      (c'.stack = .ptBody r t :: k ∨ c'.stack = .ptOwn r t :: k ∨ ∃ p v, c'.stack = .ptParent r t p v :: k) →
+      t.e = e → ¬ T46Pass c' e ∧ 1 ≤ (c'.st.ev e).waiting) := by
+  obtain ⟨a1, a2, _⟩ := success_after_last_step_partial s0 h0 c hr e hp
+  refine ⟨⟨a1, a2⟩, fun a x ts b hs => ((one_task_in_flight_partial s0 h0 c hr).2.1 a x ts b hs).1, ?_⟩
+  intro c' hr' r t k hs he
+  have h1 := (t46_reach_inv h0 c' hr').inflight_bound r t k hs
+  rw [he] at h1
+  refine ⟨?_, h1⟩
+  rintro ⟨_, _, _, _, _, hw⟩
+  omega
+
+/-- the excluded case is real: on the run `cw2` of C05 (a handler of `foo` calls `stop()` while the manager is running but not
+    executing; the inline ticks run the task loop inside the handler) the end-of-event step of event 0 goes through in
+    configuration 55 (from `processTask`) and again in configuration 86 (at the end of `_dispatcher`), with no `.disp 0`
+    logged in between; configuration 19 of the run violates the guard (`tick()` with a pending task inside a handler). -/
+theorem eventDone_once_witness :
+    T46Init C05.s0w ∧ Reach C05.s0w (C05.cw2 55) ∧ Reach C05.s0w (C05.cw2 86) ∧
+    T46Pass (C05.cw2 55) 0 ∧ T46Pass (C05.cw2 86) 0 ∧
+    (∃ es, (C05.cw2 86).st.log = es ++ (C05.cw2 55).st.log ∧ Entry.disp 0 ∉ es) ∧
+    Reach C05.s0w (C05.cw2 19) ∧ ¬ T46Guard (C05.cw2 19) :=
+  ⟨t46_s0w_init, C05.cw2_reach 55, C05.cw2_reach 86, t46_passB_spec _ _ t46_cw2_pass1, t46_passB_spec _ _ t46_cw2_pass2,
+   t46_noDispB_spec _ _ _ t46_cw2_nodisp, C05.cw2_reach 19, t46_badTickB_spec _ t46_cw2_badtick⟩
+
+/-- non-vacuity of `T46Pass` -/
+example : T46Pass { st := {}, stack := [.eventDone 0 0 false] } 0 := ⟨0, false, [], rfl, rfl, rfl⟩
 
 end CV.C04
